@@ -26,7 +26,7 @@ def obligations(tier, ctx):
             tuples = [(a, b, c) for a in (0, 4, 5) for b in (5, 7, 2) for c in (1, 4, 6)]
         for kt in tuples:
             ss = [f"s{i}" for i in range(n)]
-            obs.append(Ob(name="writer_" + "".join(map(str, kt)), params=[(s, "int") for s in ss], pre=[(f"0 <= {s} <= 7" if kt[i] not in (5, 6, 7, 13, 14) else f"{s} == 0") for i, s in enumerate(ss)],
+            obs.append(Ob(name="writer_" + "_".join(map(str, kt)), params=[(s, "int") for s in ss], pre=[(f"0 <= {s} <= 7" if kt[i] not in (5, 6, 7, 13, 14) else f"{s} == 0") for i, s in enumerate(ss)],
                           call=f"H.writer({kt!r}, [{', '.join(ss)}])", backend="P", timeout=300, family="item sequences, payload by corpus index"))
     # pre-serialised string: every string over an 8-character alphabet (LF, CR, digit, brackets, space, quote, non-ASCII)
     # up to length 2 (quick) / 3 (thorough).  Unrestricted characters make the engine enumerate code points one by one
